@@ -9,7 +9,7 @@ FINISH = dict(level="model_checking",
                    "history per transition replayed on the real library; V: random clients over a pool of handles "
                    "incl. deep copy and pointer set; every call validated by TLC (return value, exact destroyed "
                    "set, fired destructors, probe of a still-held node, allocation balance at the end)")
-MUTS = ["replace_no_put", "del_no_put"]
+MUTS = ["replace_no_put", "del_no_put", "patch_remove_no_put"]
 OPC = {"get": "G", "put": "P", "oadd": "O", "oaddnew": "Q", "odel": "D", "aadd": "A", "aput": "U", "ains": "I",
        "adel": "X", "borrow": "B", "setud": "S", "copy": "C"}
 
@@ -17,6 +17,9 @@ OPC = {"get": "G", "put": "P", "oadd": "O", "oaddnew": "Q", "odel": "D", "aadd":
 def diag_of(rec, ex):
     return {"op": rec.get("op", rec.get("e")), "ret": rec.get("ret"), "dead": len(rec.get("dead", [])),
             "fired": len(rec.get("fired", [])), "leak": rec.get("leak"), "history_len": len(ex)}
+
+
+TM = {"k": 0, "i": 1, "-": 2}
 
 
 def script_of(hist):
@@ -47,6 +50,11 @@ def script_of(hist):
             tm = {"k": 0, "i": 1, "-": 2}
             out.append("T %d %d %d" % (c["a"], c["b"], len(c["path"])) +
                        "".join(" %d %d" % (tm[t["t"]], t["v"]) for t in c["path"]))
+        elif op == "premove":
+            out.append("R %d %d" % (c["a"], len(c["path"])) + "".join(" %d %d" % (TM[t["t"]], t["v"]) for t in c["path"]))
+        elif op == "pmove":
+            out.append("M %d %d" % (c["a"], len(c["from"])) + "".join(" %d %d" % (TM[t["t"]], t["v"]) for t in c["from"]) +
+                       " %d" % len(c["path"]) + "".join(" %d %d" % (TM[t["t"]], t["v"]) for t in c["path"]))
     return ";".join(out)
 
 
@@ -54,16 +62,17 @@ def run(ck):
     thorough = ck.tier == "thorough"
     ck.assumptions += ["destruction is observed twice: the allocator wrapper sees free() of every registered node, and a user-data destructor is installed on every constructor-made node",
                        "ASan/UBSan/LSan observe the real code; the client never creates cycles (documented rule)",
-                       "json_patch application as a source of ownership transfers is exercised under C13, not here"]
+                       "json_patch remove / move applied in place are part of the client's repertoire (the copying operations add / replace / copy / test create no ownership transfer of tracked nodes and are exercised under C13)"]
     ck.mc("MCRefHeap", "C05_mc.cfg", workers=8, xmx="8g", timeout=1800)
     ck.mc("MCRefHeap", "C05_mc_b.cfg", workers=8, xmx="8g", timeout=1800)
     ck.mc("MCRefHeap", "C05_mc_c.cfg", workers=8, xmx="8g", timeout=1800)
+    ck.mc("MCRefHeap", "C05_mc_d_t.cfg" if thorough else "C05_mc_d.cfg", workers=8, xmx="8g", timeout=1800)      # patch remove / move in place
     for m in MUTS:
         ck.mc_must_fail("MCRefHeap", "C05_asfound_%s.cfg" % m, workers=4, timeout=600)
     exe = vlib.build("san", vlib.harness_sources(), "vh")
     scripts = []
     total = 0
-    for cfg in ("C05_g.cfg", "C05_g_b.cfg", "C05_g_c.cfg"):
+    for cfg in ("C05_g.cfg", "C05_g_b.cfg", "C05_g_c.cfg", "C05_g_d_t.cfg" if thorough else "C05_g_d.cfg"):
         hists, r = vlib.tlc_export_edges("GRefHeap", cfg, timeout=2400, xmx="8g")
         ck.add_tlc(r)
         total += len(hists)
